@@ -345,6 +345,12 @@ func (bs *blockstore) AllKeysChanWithErr(ctx context.Context) (<-chan cid.Cid, f
 		for {
 			e, ok := res.NextSync()
 			if !ok {
+				// A datastore may end its iteration early, without an error
+				// entry, because ctx was cancelled: that is not a complete
+				// enumeration.
+				if err := ctx.Err(); err != nil {
+					iterErr = err
+				}
 				return
 			}
 			if e.Error != nil {
